@@ -171,7 +171,7 @@ def bind_args(ex, fnode, c, args, kw, is_method):
         di = i - (len(all_params) - ndef)
         if di >= 0:
             d = defaults[di]
-            bound[p] = ex.ev(d, {})
+            bound[p] = symex.default_value(ex, d)
         else:
             raise Unsupported(f"{c['key']}: missing argument {p}")
     return bound
@@ -223,6 +223,8 @@ def apply_contract(ex, key, self_obj, args, kw, line):
     if self_obj is not None:
         for attr, expr in c.get("self_effects", {}).items():
             self_obj.attrs[attr] = eval_spec_expr(ex, expr, env)
+        for attr, pname in c.get("self_attr_is", {}).items():
+            self_obj.attrs[attr] = bound[pname]
     if isinstance(result, Obj):
         for attr, pname in c.get("result_attr_is", {}).items():
             result.attrs[attr] = bound[pname]
@@ -467,6 +469,7 @@ def verify_function(w, key):
     res.dropped = dropped_constructs(fnode)
     is_method = bool(c.get("self"))
     try:
+        symex.check_decorators(fnode)
         dispatch_obligations(w, key, c, fnode, tree, res)
     except Unsupported as u:
         res.unsupported = f"dispatch: {u}"
@@ -641,6 +644,19 @@ def run_one_path(ex, c, fnode, is_method, res):
         ok = isinstance(result, Obj) and result.attrs.get(attr) is bound.get(pname)
         ex.oblige_trivial("frame", f"result.{attr}-is-{pname}", ok, line_end,
                           note=f"the returned object's {attr} is the very object passed as {pname}")
+    # "self.<attr> IS the object passed as <param>" after the call
+    for attr, pname in c.get("self_attr_is", {}).items():
+        ok = isinstance(self_obj, Obj) and self_obj.attrs.get(attr) is bound.get(pname)
+        ex.oblige_trivial("frame", f"self.{attr}-is-{pname}", ok, line_end,
+                          note=f"self.{attr} is the very object passed as {pname}")
+    # "self.<attr> is a NEW object (to the stated depth)" after the call: constructors
+    for attr, lvl in c.get("self_attr_fresh", {}).items():
+        order = {"no": 0, "node": 1, "shallow": 2, "deep": 3}
+        v = self_obj.attrs.get(attr) if isinstance(self_obj, Obj) else None
+        ok = isinstance(v, Z) and order[v.fresh] >= order[lvl]
+        ex.oblige_trivial("frame", f"self.{attr}-is-fresh-{lvl}", ok, line_end,
+                          note=f"self.{attr} after the call: provenance "
+                               f"{getattr(v, 'origin', None)}, freshness {getattr(v, 'fresh', None)}")
     want_fresh = c.get("fresh")
     if want_fresh in ("node", "shallow", "deep") and isinstance(result, Z):
         order = {"no": 0, "node": 1, "shallow": 2, "deep": 3}
